@@ -31,7 +31,7 @@ TECHNIQUE = ("runtime monitoring: listener / wire / Deferred recorders around th
              "fault points (one injected failure per execution, every command line of the dialogue as a disconnect point)")
 LEVEL_TEXT = ("Held on the executions observed: every configuration cell (ephemeral/filesystem x auth x version x "
               "key x single-hop x directory kind) built through 7 construction routes, each run fault-free (four event "
-              "schedules, two of them with another service's HS_DESC events inside the creation window, plus listen-again histories on the same endpoint object) and once per fault point (configuration unavailable, bind refused, creating command rejected, all "
+              "schedules, two of them with another service's HS_DESC events inside the creation window, plus listen-again histories on the same endpoint object, one of them with a second endpoint object serving the same caller-chosen key in between) and once per fault point (configuration unavailable, bind refused, creating command rejected, all "
               "uploads failed, Tor hanging up instead of / right after answering the k-th command line for every k, loss "
               "before listen and between the descriptor events), plus the invalid option combinations the constructor and "
               "the endpoint-string parser declare. Enumeration of the stated cells and fault points with one fault per run, "
@@ -47,7 +47,7 @@ RULE = ("a case = configuration cell x route x fault. cell: ephemeral {auth none
         "constructor with a bootstrapped TorConfig / with a Deferred fired after listen() / with a TorConfig still bootstrapping, "
         "Tor.create_*_endpoint with and without a cached config, 'onion:' string with controlPort= (TCP or unix; real "
         "txtorcon.connect over the fake reactor's connectTCP/connectUNIX) and without (global Tor seeded through the _tor_launcher "
-        "hook). fault: see LEVEL_TEXT; fault-free schedules: plain, own events while the creating reply is withheld, foreign-service events (succeeding / all failing) while the creating reply is withheld and the own hostname is still unknown. Distinct = hash of (cell, route, fault, schedule, chunking). Non-trivial = listen() was "
+        "hook). fault: see LEVEL_TEXT; fault-free schedules: plain, own events while the creating reply is withheld, foreign-service events (succeeding / all failing) while the creating reply is withheld and the own hostname is still unknown. relisten histories: after-stop, without-stop, after-stop-port-taken, after-service-removed, after-removal-key-reused-elsewhere (other endpoint listening / its port stopped), after a failed first listen. Distinct = hash of (cell, route, fault, schedule, chunking). Non-trivial = listen() was "
         "called and at least one oracle clause beyond 'nothing happened' was evaluated (a listener was opened or refused, or "
         "a refusal before start was checked).")
 ASSUMPTIONS = [
@@ -110,6 +110,15 @@ ASSUMPTIONS = [
     "service left in Tor's configuration so that the SETCONF is not empty; ephemeral: service.remove() = DEL_ONION) - uploads of the removed "
     "incarnation do not count for a new one; for 'twice without stopping' the first listener legitimately stays open: there, what the second "
     "listen() itself opened (if anything) must be what Tor forwards to; a second listen() that fails cleanly is always accepted",
+    "history 'after-removal-key-reused-elsewhere' (ephemeral cells whose private key the caller chose): listen(), stop the port, service.remove() "
+    "(DEL_ONION acknowledged), then a SECOND endpoint object built from the same cell on the same TorConfig listens successfully (Tor accepts the "
+    "key again: same onion address, forwarded to the second endpoint's local port; its local listener is left open, or stopped through its port "
+    "object - the service stays in Tor and in the config either way), then listen() again on the FIRST endpoint. Tor answers 550 (address "
+    "collision) to a second ADD_ONION with that key, so a cleanly failing listen() is what correct code produces and is accepted (as any clean "
+    "failure of a second listen()); a listen() that RESOLVES must have an open loopback listener of its own (opened by this very call) and Tor's "
+    "record of the service must forward the public port to exactly that listener - the other endpoint's listener does not count. UPLOADED events "
+    "of the other endpoint's incarnation are counted for the address (leniency: only the mapping is demanded there). The other endpoint's listener "
+    "is closed through the reactor before the 'nothing left open' clauses are evaluated; the other endpoint's own listen() is not judged here",
 ]
 TRUSTED_BASE = ["vf.fakereactor.FakeReactor (tracked listening ports, harness-resolved connects)",
                 "vf.faketor.oniontor.OnionTor (reference Tor, self-tested)", "vf.refs.addonion, vf.refs.kvline (decoders, self-tested)",
@@ -141,7 +150,8 @@ FLOORS = {
               "open_listeners_checked_at_the_instant_of_failure": 1200, "cancellations_checked": 400, "cancelled:cancelled-during-descriptor-wait": 120, "cancelled:cancelled-while-creating": 100,
               "cancelled:cancelled-before-bind": 40, "relisten_runs": 300, "relisten_successes_checked": 150,
               "relisten_open_listener_checks": 100, "relisten_failures_checked": 15, "relisten:after-stop-port-taken": 60,
-              "relisten:after-service-removed": 60, "relisten:without-stop": 60, "fault:reject-line": 120, "route:ctor-raw": 100, "fault:close-on-line": 300,
+              "relisten:after-service-removed": 60, "relisten:without-stop": 60, "relisten:after-removal-key-reused-elsewhere": 15,
+              "key_reused:other-listening": 6, "key_reused:other-port-stopped": 6, "fault:reject-line": 120, "route:ctor-raw": 100, "fault:close-on-line": 300,
               "fault:close-after-reply": 300, "fault:reject": 120, "fault:uploads-failed": 180, "fault:bind": 90, "fault:config": 40,
               "route:ctor": 200, "route:tor": 140, "route:str-system": 80, "route:str-global": 45,
               "reach:txtorcon.endpoints:TCPHiddenServiceEndpoint.listen": 1400,
@@ -155,7 +165,8 @@ FLOORS = {
                  "open_listeners_checked_at_the_instant_of_failure": 3500, "cancellations_checked": 900, "cancelled:cancelled-during-descriptor-wait": 200, "cancelled:cancelled-while-creating": 200,
                  "cancelled:cancelled-before-bind": 150, "relisten_runs": 400, "relisten_successes_checked": 200,
                  "relisten_open_listener_checks": 130, "relisten_failures_checked": 20, "relisten:after-stop-port-taken": 70,
-                 "relisten:after-service-removed": 70, "relisten:without-stop": 70, "fault:reject-line": 400, "route:ctor-raw": 400, "fault:close-on-line": 1200,
+                 "relisten:after-service-removed": 70, "relisten:without-stop": 70, "relisten:after-removal-key-reused-elsewhere": 20,
+                 "key_reused:other-listening": 8, "key_reused:other-port-stopped": 8, "fault:reject-line": 400, "route:ctor-raw": 400, "fault:close-on-line": 1200,
                  "fault:close-after-reply": 1200, "fault:reject": 300, "fault:uploads-failed": 450, "fault:bind": 250, "fault:config": 100,
                  "random_cases": 4000,
                  "route:ctor": 400, "route:tor": 300, "route:str-system": 300, "route:str-global": 100,
@@ -176,6 +187,9 @@ AUTH = {"none": None, "b1": ("basic", ["alice"]), "b2": ("basic", ["alice", "bob
 PUBLIC_PORTS = (80, 443, 1, 65535, 8080, 9735)
 FIRST_PORTS = (41000, 1025, 65001, 50000)
 MARK = "C17-injected"
+# relisten history: the endpoint's ephemeral service was removed and ANOTHER endpoint object on the same TorConfig brought the same
+# private key (hence the same onion address) up again before listen() is called again on the first endpoint
+KEY_REUSED = "after-removal-key-reused-elsewhere"
 # IListeningPort histories exercised on the port a successful listen() returned
 PORT_HISTORIES = (("stop",), ("stop", "stop"), ("stop", "start", "stop"), ("stop", "start", "stop", "stop"),
                   ("stop", "stop", "start", "stop", "start", "stop"))
@@ -288,6 +302,11 @@ def base_faults(route, cell):
     f += [["none", "relisten", "after-stop"], ["none", "relisten", "without-stop"],
           ["none", "relisten", "after-stop-port-taken"], ["none", "relisten", "after-service-removed"],
           ["reject", word, 512 if cell["eph"] else 513, "relisten"], ["uploads-failed", 1, "relisten"], ["bind", "relisten"]]
+    if cell["eph"] and cell.get("key") in ("prefixed", "bare", "wrong-type"):
+        # the caller chose the key: after the service was removed, a second endpoint object (same TorConfig, same key) serves the
+        # same onion address - with its local listener still open, or stopped - when listen() is called again on the first one
+        variant = ("other-listening", "other-port-stopped")[(ROUTES.index(route) + int(cell.get("history") or 0)) % 2]
+        f.append(["none", "relisten", KEY_REUSED, variant])
     return f
 
 
@@ -1259,7 +1278,7 @@ def execute(case):
             hist = PORT_HISTORIES[-1]
             if "history" in w.cell:
                 hist = PORT_HISTORIES[(int(w.cell["history"]) + ROUTES.index(w.route)) % len(PORT_HISTORIES)]
-            if relisten_mode in ("after-stop", "after-stop-port-taken", "after-service-removed"):
+            if relisten_mode in ("after-stop", "after-stop-port-taken", "after-service-removed", KEY_REUSED):
                 hist = ("stop",)
             elif relisten_mode == "without-stop":
                 hist = ()
@@ -1326,6 +1345,61 @@ def tor_mapping(w, sid):
     return [(pp, _norm_target(pp, t)) for (pp, t) in rec.ports]
 
 
+def other_endpoint_takes_the_key(w, ep, r):
+    """a second endpoint object on the same TorConfig, built from the same cell (same private key), listens successfully: Tor now
+    serves the onion address of the removed service again, forwarding to the OTHER endpoint's local port.  False = scenario not
+    reached (r["skipped"] says why)"""
+    from twisted.internet import protocol
+    from txtorcon import TCPHiddenServiceEndpoint
+    obs = w.obs
+    variant = r["variant"] = w.fault[3] if len(w.fault) > 3 else "other-listening"
+    accepted0 = len([e for e in w.tor.add_onion_log if e["code"] == 250])
+    n_calls = len(obs.listen_calls)
+    try:
+        ep2 = w._build_ctor(TCPHiddenServiceEndpoint, ep._config, None)
+        d_other = ep2.listen(protocol.Factory())
+    except Exception as e:      # noqa
+        r["skipped"] = "the other endpoint could not be started: %r" % (e,)
+        return False
+    oo = w.aud.watch(d_other, "other-endpoint-listen")
+    w.step("relisten:other-endpoint-listen")
+    accepted = [e for e in w.tor.add_onion_log if e["code"] == 250][accepted0:]
+    if accepted and not oo.fired:
+        addr = accepted[-1]["service_id"]
+        w.tor.hs_desc("UPLOAD", addr, 0, descid=AO.descriptor_id(addr, 0))
+        w.step("relisten:other-endpoint-upload")
+        if w.tor.hs_desc("UPLOADED", addr, 0):
+            obs.uploaded_for[addr] = obs.uploaded_for.get(addr, 0) + 1
+        w.step("relisten:other-endpoint-uploaded")
+    others = [(c["lp"].interface, c["lp"].port) for c in obs.listen_calls[n_calls:] if c["ok"]]
+    if not (accepted and oo.fired and oo.ok):
+        for lp in w.reactor.open_ports():
+            if (lp.interface, lp.port) in others:
+                lp.stopListening()
+                lp.finish_stop()
+        w.reactor.flush()
+        r["skipped"] = "the other endpoint with the same key did not come up"
+        return False
+    sid = accepted[-1]["service_id"]
+    r["other_listeners"] = others
+    r["other_mapping"] = tor_mapping(w, sid)
+    r["same_address_as_removed_service"] = bool(obs.first_sid == sid)
+    if r["other_mapping"] is None or not r["same_address_as_removed_service"]:
+        r["skipped"] = "Tor does not serve the removed service's address for the other endpoint"
+        return False
+    if variant == "other-port-stopped":
+        try:
+            oo.value.stopListening()
+        except Exception as e:      # noqa
+            r["skipped"] = "stopping the other endpoint's port raised %r" % (e,)
+            return False
+        w.step("relisten:other-endpoint-port-stopped")
+        if [x for x in w.open_ports() if x in others]:
+            r["skipped"] = "the other endpoint's listener stayed open"
+            return False
+    return True
+
+
 def relisten(w, ep, o1, mode):
     """listen() once more on the same endpoint object; faults of the first attempt are over"""
     from twisted.internet import protocol
@@ -1349,7 +1423,7 @@ def relisten(w, ep, o1, mode):
             return
         w.reactor.refuse_listen(old[0])
         r["old_port_refused"] = old[0]
-    if mode == "after-service-removed":
+    if mode in ("after-service-removed", KEY_REUSED):
         svc = w.service()
         if svc is None:
             r["skipped"] = "no service to remove"
@@ -1371,6 +1445,9 @@ def relisten(w, ep, o1, mode):
             r["skipped"] = "Tor still has the service after the removal"
             return
         obs.uploaded_for[sid] = 0       # uploads of the removed incarnation do not count for a new one
+    if mode == KEY_REUSED:
+        if not other_endpoint_takes_the_key(w, ep, r):
+            return
     n_calls, n_lines = len(obs.listen_calls), len(w.tor.lines)
     try:
         d2 = ep.listen(protocol.Factory())
@@ -1409,6 +1486,15 @@ def relisten(w, ep, o1, mode):
         r["error"] = "%s: %s" % (type(o2.value).__name__, o2.value)
     if mode == "without-stop" and o1.ok:
         ports.append(o1.value)
+    if r.get("other_listeners"):
+        # the other endpoint's listener is closed through the reactor (not through the code under test): from here on only the
+        # listeners of the endpoint under observation can be open
+        mine = [tuple(x) for x in (r["new_listeners"] or [])]
+        for lp in w.reactor.open_ports():
+            if (lp.interface, lp.port) in r["other_listeners"] and (lp.interface, lp.port) not in mine:
+                lp.stopListening()
+                lp.finish_stop()
+        w.reactor.flush()
     for pt in ports:
         try:
             pt.stopListening()
@@ -1649,7 +1735,7 @@ def judge_relisten(w, rec, case):
         bad.append(clause)
         d = dict(detail)
         d["second_listen"] = {k: r.get(k) for k in ("mode", "fired", "ok", "error", "new_listen_calls", "lines", "open_after_listen", "mapping", "at_fire",
-                                                      "old_port_refused")}
+                                                      "old_port_refused", "variant", "other_listeners", "other_mapping", "new_listeners")}
         rec.violation(clause, cls, d, case)
 
     if r.get("skipped"):
@@ -1658,6 +1744,9 @@ def judge_relisten(w, rec, case):
         return bad
     rec.count("relisten_runs")
     rec.count("relisten:" + r["mode"])
+    if r["mode"] == KEY_REUSED:
+        rec.count("key_reused:" + str(r.get("variant")))
+        rec.count("key_reused_second_listen:" + ("pending" if not r["fired"] else "succeeded" if r["ok"] else "failed-cleanly" if not r["open_at_end"] else "failed"))
     if r["raised"]:
         V("listen-raised-synchronously", {"exc": r["raised"]})
         return bad
@@ -1676,7 +1765,20 @@ def judge_relisten(w, rec, case):
         opened = r["open_after_listen"] or []
         if any(not is_loopback(i) for (i, p) in opened):
             V("non-loopback-listener", {"open": opened})
-        if r["mode"] != "without-stop":
+        if r["mode"] == KEY_REUSED:
+            # another endpoint's service has the same address (and, in one variant, an open listener of its own): what THIS
+            # listen() opened must be open and must be exactly what Tor forwards the public port to now
+            rec.count("relisten_open_listener_checks")
+            rec.count("key_reused_successes_checked")
+            newl = [tuple(x) for x in (r["new_listeners"] or [])]
+            if not [x for x in newl if x in [tuple(y) for y in opened]]:
+                V("listen-resolved-without-open-listener", {"open": opened, "listeners_opened_by_second_listen": newl})
+            elif r["mapping"] is not None:
+                rec.count("relisten_mappings_compared")
+                got = [(pp, tuple(t)) for (pp, t) in r["mapping"]]
+                if len(got) != 1 or got[0] not in [(cell["public_port"], x) for x in newl]:
+                    V("port-mapping-mismatch", {"tor_forwards": got, "listeners_opened_by_second_listen": newl, "open_listeners": opened})
+        elif r["mode"] != "without-stop":
             rec.count("relisten_open_listener_checks")
             if not opened:
                 V("listen-resolved-without-open-listener", {"open": opened})
